@@ -30,6 +30,20 @@ SEMANTIC_ASSUMPTIONS = [
 ]
 
 
+def clause_key(name):
+    """obligation name without path/site ordinals: stable across harmless restructurings of the code"""
+    import re
+    return re.sub(r"/(path|site)\d+$", "", name)
+
+
+def load_baseline(pid):
+    p = os.path.join(ROOT, "baseline", pid + ".json")
+    if not os.path.exists(p):
+        return None
+    with open(p) as f:
+        return set(json.load(f)["proved_clauses"])
+
+
 def load_known_findings():
     p = os.path.join(ROOT, "known_findings.json")
     if not os.path.exists(p):
@@ -54,6 +68,16 @@ def run_property(pid, tier, seed):
         obls += extra
     timeout = 10000 if tier == "quick" else 60000
     results = solve.discharge(obls, timeout_ms=timeout)
+    if os.environ.get("VERIF_RECORD_BASELINE"):
+        os.makedirs(os.path.join(ROOT, "baseline"), exist_ok=True)
+        proved = {}
+        for r in results:
+            if r.ob.kind == "assert":
+                k = clause_key(r.ob.name)
+                proved[k] = proved.get(k, True) and r.status == "proved"
+        with open(os.path.join(ROOT, "baseline", pid + ".json"), "w") as f:
+            json.dump({"property": pid, "proved_clauses": sorted(k for k, v in proved.items() if v)}, f, indent=0)
+    baseline = load_baseline(pid)
     kf = load_known_findings()
     known = [k for k in kf.get("open", []) if k["property"] == pid]
     violations, unknowns, vacuous, known_hit = [], [], [], []
@@ -66,8 +90,15 @@ def run_property(pid, tier, seed):
                 known_hit.append((k, r))
             else:
                 violations.append(r)
-        elif r.status in ("unknown", "cover-unknown"):
-            unknowns.append(r)
+        elif r.status == "unknown":
+            # an obligation that was discharged on the unchanged tree (committed baseline) and is not
+            # discharged now is a failed obligation: reported as a violation (with the solver's reason);
+            # anything else that stays open is UNDECIDED
+            if baseline is not None and clause_key(r.ob.name) in baseline:
+                r.info = "solver: unknown/timeout on an obligation that is discharged on the unchanged tree"
+                violations.append(r)
+            else:
+                unknowns.append(r)
         elif r.status == "vacuous":
             vacuous.append(r)
     asserts = [r for r in results if r.ob.kind == "assert"]
@@ -96,7 +127,8 @@ def run_property(pid, tier, seed):
         h = hashlib.sha256(r.ob.name.encode()).hexdigest()[:10]
         path = os.path.join(replay_dir, "%s.json" % h)
         rep = {"property": pid, "obligation": r.ob.name, "kind": "failed-obligation",
-               "path": r.ob.info.get("path"), "solver": r.backend, "solver_output": "sat",
+               "path": r.ob.info.get("path"), "solver": r.backend,
+               "solver_output": "sat (counter-model below)" if r.status == "refuted" else "unknown (no proof found)",
                "model": r.info, "tier": tier}
         witness = None
         if hasattr(propmod, "replay_obligation"):
@@ -112,6 +144,27 @@ def run_property(pid, tier, seed):
     for (path, desc) in b_viol:
         lines.append("VIOLATION property=%s replay=%s" % (pid, path))
         exit_code = 1
+    # functions whose obligations were discharged on the unchanged tree but can no longer be brought within
+    # the verifier's reach (left the subset): their bounded stand-in decides - a concrete failing input on the
+    # real code is a violation, otherwise the property is UNDECIDED (never a violation by itself)
+    lost = [(c, w) for (c, w) in undecided if not w.startswith("CRASH") and baseline is not None
+            and any(k.startswith(driver.contract_name(c) + "/") for k in baseline)]
+    if lost and exit_code == 0 and hasattr(propmod, "replay_obligation"):
+        try:
+            witness = propmod.replay_obligation(None, {})
+        except Exception as e:
+            witness = None
+            print("NOTE: witness search failed: %s" % e)
+        if witness:
+            os.makedirs(replay_dir, exist_ok=True)
+            path = os.path.join(replay_dir, "undecided-%s.json" % hashlib.sha256(
+                driver.contract_name(lost[0][0]).encode()).hexdigest()[:10])
+            with open(path, "w") as f:
+                json.dump({"property": pid, "kind": "bounded-witness-for-function-outside-subset",
+                           "obligation": driver.contract_name(lost[0][0]), "reason": lost[0][1],
+                           "failing_input": witness}, f, indent=1, default=str)
+            lines.append("VIOLATION property=%s replay=%s" % (pid, path))
+            exit_code = 1
     for k, r in known_hit:
         print("KNOWN-FINDING: property=%s %s [%s]" % (pid, k["what"], r.ob.name))
     seen_k = {id(k) for k, _ in known_hit}
